@@ -4,6 +4,37 @@ import hist, streams, oracles, prefix
 from vlib import *
 
 
+def directed_replay_histories():
+    """Name-changing and name-reusing records followed by later records that touch the same entry (or its old name):
+    every replay position then meets rows that later records have already shaped."""
+    W = hist.O_WRONLY | hist.O_TRUNC
+    laters = [[{"op": "chmod", "name": "N", "perm": 0o600}], [{"op": "writefile", "name": "N", "flags": W, "perm": 0o644, "blob": 1}],
+              [{"op": "remove", "name": "N"}], [{"op": "chtimes", "name": "N", "atime": 1000, "mtime": 2000}, {"op": "createfile", "name": "O", "blob": 1}],
+              [{"op": "rename", "name": "N", "name2": "/c.txt"}, {"op": "chmod", "name": "/c.txt", "perm": 0o640}],
+              [{"op": "createfile", "name": "O", "blob": 1}, {"op": "chmod", "name": "O", "perm": 0o600}, {"op": "remove", "name": "N"}]]
+    hs = []
+    k = 0
+    for setup, N, O in (
+            ([{"op": "createfile", "name": "/a.txt", "blob": 0}, {"op": "rename", "name": "/a.txt", "name2": "/b.txt"}], "/b.txt", "/a.txt"),
+            ([{"op": "createfile", "name": "/a.txt", "blob": 0}, {"op": "createfile", "name": "/b.txt", "blob": 1}, {"op": "rename", "name": "/a.txt", "name2": "/b.txt"}], "/b.txt", "/a.txt"),
+            ([{"op": "createfile", "name": "/b.txt", "blob": 1}, {"op": "remove", "name": "/b.txt"}, {"op": "createfile", "name": "/a.txt", "blob": 0}, {"op": "rename", "name": "/a.txt", "name2": "/b.txt"}], "/b.txt", "/a.txt"),
+            ([{"op": "mkdir", "name": "/d", "perm": 0o755}, {"op": "createfile", "name": "/d/f", "blob": 0}, {"op": "rename", "name": "/d", "name2": "/e"}], "/e/f", "/d"),
+            ([{"op": "mkdir", "name": "/d", "perm": 0o755}, {"op": "createfile", "name": "/d/f", "blob": 0}, {"op": "removeall", "name": "/d"}, {"op": "mkdir", "name": "/d", "perm": 0o700}, {"op": "createfile", "name": "/d/f", "blob": 1}], "/d/f", "/d/g")):
+        for later in laters:
+            calls = [{"op": "initialize"}] + [dict(c) for c in setup]
+            for c in later:
+                c = dict(c)
+                for key in ("name", "name2"):
+                    if c.get(key) == "N":
+                        c[key] = N
+                    elif c.get(key) == "O":
+                        c[key] = O
+                calls.append(c)
+            hs.append({"config": {"rs": [20, 3, 1][k % 3], "cache": "file"}, "blobs": [{"seed": 1, "len": 700}, {"seed": 2, "len": 10}], "obs": [], "calls": calls, "_directed": True})
+            k += 1
+    return hs
+
+
 def replay_stream(ctx):
     data, p = streams.cache_get(ctx, "replay")
     if data is not None:
@@ -16,6 +47,7 @@ def replay_stream(ctx):
     bases = []
     for h in streams.corpus("replay"):
         bases.append(h)
+    bases += directed_replay_histories()
     for i in range(10 if quick else 120):
         rs = rng.choice([1, 3, 20])
         g = hist.Gen(random.Random(rng.random()), rs, alpha=hist.ALPHA[:9], max_calls=9 if quick else 18, ops_level=(i % 3 == 0), malformed=0.05)
